@@ -40,6 +40,8 @@ LUA_FILES = {
     'a.lua.lua': b'dd=4\n',
     # files that contribute no line / one empty line
     'empty.lua': b'',
+    # names with upper-case letters next to files that differ from them only in letter case
+    'Util.lua': b'upper_u=1\n', 'util.lua': b'lower_u=2\n', 'Lib/Tools.lua': b'lt=3\n', 'lib/tools.lua': b'lt_lower=4\n', 'only.lua': b'only=5\n',
     # files with carriage returns (saved on Windows / old Mac; a CR LF inside a long string): spliced as they are
     'crlf.lua': b'wa=1\r\nwb=2\r\n',
     'cr.lua': b'ma=1\rmb=2\r',
@@ -94,6 +96,7 @@ def line_kinds():
     kinds += [('lua', 'inc.lua'), ('lua', 'incn.lua'), ('lua', 'sub/s.lua'), ('lua', 'nest.lua'), ('lua', 'lnk.lua')]
     kinds += [('lua', 'empty.lua'), ('lua', 'nl.lua'), ('lua', 'sub/empty.lua')]
     kinds += [('lua', 'crlf.lua'), ('lua', 'cr.lua'), ('lua', 'crstr.lua')]
+    kinds += [('lua', 'Util.lua'), ('lua', 'util.lua'), ('lua', 'Lib/Tools.lua'), ('lua', 'lib/tools.lua'), ('missing', 'ONLY.lua')]
     kinds += [('lua', 'inc0.p8.lua'), ('lua', 'libs.p8/util.lua'), ('lua', 'a.lua.lua'), ('missing', 'plain.lua.p8'), ('missing', 'inc.lua.lua')]
     kinds += [('p8', 'inc0', None), ('p8', 'inc2', None), ('p8', 'inc3e', None)]
     kinds += [('p8', 'inc2', n) for n in range(0, 5)]
